@@ -21,8 +21,10 @@ def tol30 : Rat := 1 / two 30
 
 /-- DBL_MIN = 2⁻¹⁰²² -/
 def dblMin : Rat := 1 / two 1022
-/-- the double nearest to 1e-5 -/
+/-- the double nearest to 1e-5 (the padding of the default quadtree root cell) -/
 def tol1em5 : Rat := (5902958103587057 : Rat) / (590295810358705651712 : Rat)
+/-- the tolerance of the perplexity bisection, as the source has it -/
+def tolBis : Rat := (Gen.TsneOps.bisectTol.1 : Rat) / (Gen.TsneOps.bisectTol.2 : Rat)
 
 def ratsA (s : String) : Option (Array Rat) := (parseRats s ",").map List.toArray
 def natsA (s : String) : Option (Array Nat) := (parseNats s ",").map List.toArray
@@ -139,7 +141,7 @@ def doGpd (N D : Nat) (x : Array Rat) (perp : Rat) (o : Option (Array Rat)) : St
         let Hn := fun b =>
           let arr := Array.ofFn (rowDense expR dblMin dd n b)
           rowEntropy lnR dblMin dd (fun m => arr.getD m.1 0) b
-        let (st, margin) := bisectTracked Hn lnPerp tol1em5
+        let (st, margin) := bisectTracked Hn lnPerp tolBis
         let row := rowDense expR dblMin dd n st.beta
         let s := rowSum dblMin row
         (margin, absR st.beta, (List.finRange N).map fun m => row m / s)
@@ -170,7 +172,7 @@ def doGpk (N D K Kspec : Nat) (x : Array Rat) (perp : Rat) (oc : Option (Array N
       let Hn := fun b =>
         let arr := Array.ofFn (rowKnn expR dist b)
         rowEntropy lnR dblMin dist (fun m => arr.getD m.1 0) b
-      let (st, margin) := bisectTracked Hn lnPerp tol1em5
+      let (st, margin) := bisectTracked Hn lnPerp tolBis
       let row := rowKnn expR dist st.beta
       let s := rowSum dblMin row
       let mrow := (List.finRange K).map fun m => row m / s
@@ -456,7 +458,7 @@ def doRun (N D dim : Nat) (x g : Array Rat) (perp θ : Rat) (snapsS : Option Str
         let dds : Fin N → Rat := fun m => ddsA.getD m.1 0
         let b := (bisect (fun b =>
           let arr := Array.ofFn (rowDense expR dblMin dds n b)
-          rowEntropy lnR dblMin dds (fun m => arr.getD m.1 0) b) lnPerp tol1em5).beta
+          rowEntropy lnR dblMin dds (fun m => arr.getD m.1 0) b) lnPerp tolBis).beta
         let rowA := Array.ofFn (rowDense expR dblMin dds n b)
         let sm := rowSum dblMin fun (m : Fin N) => rowA.getD m.1 0
         (List.finRange N).map fun m => rowA.getD m.1 0 / sm).toArray
@@ -503,7 +505,7 @@ def doRun (N D dim : Nat) (x g : Array Rat) (perp θ : Rat) (snapsS : Option Str
           | _, _ => false
         let distA := (nb.map fun e => kernelDistance (vpDistance sqrtR (coords n) (coords e.1))).toArray
         let dist : Fin Kn → Rat := fun m => distA.getD m.1 0
-        let rowf := gaussianRowKnn expR lnR dblMin lnPerp tol1em5 dist
+        let rowf := gaussianRowKnn expR lnR dblMin lnPerp tolBis dist
         let vals := (List.finRange Kn).map rowf
         (nb.map (·.1), vals, tie || decide (nb.length ≠ Kn))
       if rows.any (·.2.2) then "cmp=skip:neighbour-tie dyn=skip" else
